@@ -663,6 +663,19 @@ def rule_g(ctx):
              and isinstance(t.test.comparators[0], ast.Constant) and isinstance(t.test.left, ast.Name) and t.test.left.id in local]
     for t in tests:
         ctx.ob(R, f.qname, "the 'no extra argument' test uses the same offset", t.test.comparators[0].value == k_want, norm(t.test), t)
+    # CombinedModel decides from co_argcount how many extra arguments a part receives: co_argcount counts named positional parameters only, so a model
+    # whose __call__ takes its extras as *args is handed none of them (a mask is silently dropped)
+    for mn_ in sorted(mm for mm in m.modules if mm.startswith("darsia.signals.models.")):
+        for k_ in m.mod(mn_).classes.values():
+            cf = k_.methods.get("__call__")
+            if cf is None or k_.name == "CombinedModel":
+                continue
+            ctx.instance(R)
+            va = cf.node.args.vararg
+            forwards = va is not None and any(isinstance(x, ast.Starred) and isinstance(x.value, ast.Name) and x.value.id == va.arg for x in ast.walk(cf.node))
+            ctx.ob(R, cf.qname, f"{k_.name}.__call__ names the extra arguments it uses (CombinedModel counts co_argcount)", not forwards,
+                   f"`*{va.arg}` is forwarded inside {k_.name}.__call__: co_argcount is {len(cf.node.args.args)}, so inside a CombinedModel this part receives no extra argument although it uses them" if forwards else "",
+                   cf.node, evidence=True)
     ctx.floor(R, 1)
 
 
